@@ -566,7 +566,24 @@ static int uc_cut(char *s)
 	return 0;
 }
 
+#ifdef NEATVI_VERIF
+static int regcomp_exact(regex_t *preg, char *pat, int flg);
+
+/* compile an exact-size heap copy of the pattern: a read past its NUL reaches a red zone */
 int regcomp(regex_t *preg, char *pat, int flg)
+{
+	char *cp = malloc(strlen(pat) + 1);
+	int ret;
+	strcpy(cp, pat);
+	ret = regcomp_exact(preg, cp, flg);
+	free(cp);
+	return ret;
+}
+
+static int regcomp_exact(regex_t *preg, char *pat, int flg)
+#else
+int regcomp(regex_t *preg, char *pat, int flg)
+#endif
 {
 	struct rnode *rnode = uc_cut(pat) ? NULL : rnode_parse(&pat);
 	struct regex *re;
